@@ -249,6 +249,56 @@ class Gen:
         if k != 1:
             self.S.discard(a)       # (the cycle is gone unless a copy of the functor is held elsewhere)
 
+    def t_empty_assign_owned(self):
+        """F12: a slot variable kept alive by the functor it stores (directly or through a second variable) is
+        emptied by clrS or by an assignment from an empty slot"""
+        self.tags.add("empty-assign-owned")
+        a = self.s_new()
+        if a not in self.S:
+            self.emit("mkS0 S%d" % a if self.r.chance(0.6) else "mkS S%d fn:%d" % (a, self.fid()))
+            self.S.add(a)
+        victim = a
+        if self.r.chance(0.7):
+            sp = "own:%d:S%d" % (self.fid(), a)
+            if self.r.chance(0.3):
+                sp += ":T%d" % self.t_get()
+            self.emit("setS S%d %s" % (a, sp))
+        else:
+            b = self.mk(kinds=[("fn", 1)])
+            self.emit("setS S%d own:%d:S%d" % (a, self.fid(), b))
+            self.emit("setS S%d own:%d:S%d" % (b, self.fid(), a))
+            victim = self.r.choice([a, b])
+        k = self.r.below(5)
+        if k == 0:
+            c = self.c_new()
+            self.emit("connS C%d S%d" % (c, victim))
+            self.C.add(c)
+        elif k == 1:
+            j = self.s_new()
+            if j not in self.S:
+                self.emit("cpS S%d S%d" % (j, victim))
+                self.S.add(j)
+        elif k == 2:
+            self.emit("blockS S%d 1" % victim)
+        elif k == 3:
+            j = self.s_new()
+            if j not in self.S:
+                self.emit("mkS S%d sref:%d:S%d" % (j, self.fid(), victim))
+                self.S.add(j)
+        how = self.r.weighted([("clr", 4), ("asg", 3), ("masg", 3)])
+        if how == "clr":
+            self.emit("clrS S%d" % victim)
+        else:
+            e = self.s_new()
+            if e in self.S:
+                self.emit("clrS S%d" % e)
+            else:
+                self.emit("mkS0 S%d" % e)
+                self.S.add(e)
+            self.emit("%sS S%d S%d" % (how, victim, e))
+        self.probes([victim])
+        self.emit("live? %d" % self.fid())
+
     def t_own_chain(self):
         self.tags.add("own-chain")
         a = self.mk()
@@ -428,17 +478,17 @@ class Gen:
 
     def program(self):
         f = self.focus
-        tw = {"C06": [("conn", 5), ("selfown", 6), ("chain", 4), ("parented", 2), ("outer", 3), ("xp", 1), ("none", 3)],
-              "C12": [("parented", 9), ("conn", 2), ("selfown", 1), ("chain", 1), ("outer", 2), ("xp", 1), ("none", 3)],
-              "C04": [("conn", 10), ("selfown", 2), ("chain", 2), ("parented", 2), ("outer", 2), ("xp", 1), ("none", 3)],
-              "C15": [("parented", 6), ("conn", 4), ("selfown", 2), ("chain", 3), ("outer", 5), ("xp", 1), ("none", 3)]}[f]
+        tw = {"C06": [("conn", 5), ("selfown", 6), ("chain", 4), ("parented", 2), ("outer", 3), ("xp", 1), ("eao", 3), ("none", 3)],
+              "C12": [("parented", 9), ("conn", 2), ("selfown", 1), ("chain", 1), ("outer", 2), ("xp", 1), ("eao", 1), ("none", 3)],
+              "C04": [("conn", 10), ("selfown", 2), ("chain", 2), ("parented", 2), ("outer", 2), ("xp", 1), ("eao", 2), ("none", 3)],
+              "C15": [("parented", 6), ("conn", 4), ("selfown", 2), ("chain", 3), ("outer", 5), ("xp", 1), ("eao", 2), ("none", 3)]}[f]
         n_tpl = self.r.weighted([(1, 5), (2, 4), (3, 1)])
         for _ in range(self.r.below(4)):
             self.rand_op()
         for _ in range(n_tpl):
             k = self.r.weighted(tw)
             {"conn": self.t_conn_move, "selfown": self.t_self_own, "chain": self.t_own_chain,
-             "parented": self.t_parented_move, "xp": self.t_parent_exchange, "outer": self.t_outer_copy, "none": self.rand_op}[k]()
+             "parented": self.t_parented_move, "xp": self.t_parent_exchange, "outer": self.t_outer_copy, "eao": self.t_empty_assign_owned, "none": self.rand_op}[k]()
             for _ in range(self.r.below(5)):
                 self.rand_op()
         # closing probes: everything observable about what is left
@@ -589,7 +639,8 @@ def monitor(prog, lines):
            (and nothing else but queries, blocking and connection bookkeeping happens), `parentS? I` stays 1.
       K1   C04: once the variable a connection was made for has been destroyed by name, the connection and every
            copy report connected? 0 / blockedC? 0 / blockC 0 until they are re-assigned.
-      A1   C06/C07: without owning functors nothing is left alive after teardown (live=0 slots=0).
+      A1   C06/C07: nothing is left alive after the teardown (live=0 slots=0): it empties every slot variable
+           (`*s = slot()`, which since the fix of F12 also breaks self-owning cycles) and destroys them.
     """
     bad = []
     flag = {}            # slot name -> expected blocked flag
@@ -607,8 +658,9 @@ def monitor(prog, lines):
         m = _OPLINE.match(ln)
         if not m:
             if ln.startswith("0 final "):
-                if "own:" not in prog and not ln.startswith("0 final live=0 slots=0"):
-                    bad.append("A1 (C06/C07): no owning functor in the program but teardown left something: " + ln)
+                if not ln.startswith("0 final live=0 slots=0"):
+                    bad.append("A1 (C06/C07): the teardown empties and destroys every slot variable, yet something "
+                               "is left: " + ln)
             continue
         op, args, res = m.group(1), m.group(2).split(), m.group(3)
         ncalls, calls = calls, 0
